@@ -30,8 +30,18 @@ pub fn judge(t: &Topo, d: &TrainDesc, net: &EstTimeNet) -> Judged {
     let e = &net.val;
     let n = e.len();
     let mut j = Judged { fails: vec![], nodes: n as u64, edges: 0, walks: 0, checks: 0, sig: String::new() };
-    let multi = origin_dest_links(t, d.od).0.len() > 1;
-    let class = if multi { "multi-origin" } else { "single-origin" };
+    let origs0 = origin_dest_links(t, d.od).0;
+    let multi = origs0.len() > 1;
+    // input classes of the known scheduling defect: several origin segments, or a turnout (alternate next link)
+    // directly behind the origin link, i.e. the alternates branch off before the first real event
+    let alt_at_origin = origs0.iter().any(|l| t.net.0[*l].idx_next_alt.idx() != 0);
+    let class = if multi {
+        "multi-origin"
+    } else if alt_at_origin {
+        "turnout-directly-behind-origin"
+    } else {
+        "single-origin"
+    };
     let mut push = |j: &mut Judged, key: &str, what: String| {
         if !j.fails.iter().any(|f| f.0.starts_with(key)) {
             j.fails.push((format!("{key}:{class}"), what));
